@@ -41,6 +41,10 @@ class IntegInterp(BufInterp):
             return Sym("secs_of", obj)
         if attr == "to_reduced_units" and isinstance(obj, (Sym,)):
             return Sym("reduce_of", obj)
+        if attr == "dtype" and isinstance(obj, Sym):
+            return Sym("dtype", obj)
+        if attr in ("astype", "round") and isinstance(obj, Sym):
+            return Sym("cast_of", obj, attr)
         return super().get_attr(obj, attr, node, mod)
 
     def call_hook(self, fv, args, kwargs, node, mod):
@@ -48,6 +52,8 @@ class IntegInterp(BufInterp):
             return secs(fv.args[0])
         if isinstance(fv, Sym) and fv.op == "reduce_of":
             return fv.args[0]
+        if isinstance(fv, Sym) and fv.op == "cast_of":
+            return Sym(fv.args[1], fv.args[0], *args)  # a cast / rounding changes the numbers: another term than the integral
         return super().call_hook(fv, args, kwargs, node, mod)
 
     def ext_call(self, name, args, kwargs, node):
